@@ -3,6 +3,49 @@ package main
 func buildProperties() []Property {
 	return []Property{
 		{
+			ID: "C09", Title: "Database updates follow the logical update view; retract removes its match",
+			Decides:    "no delayed continuation addresses the live clause list by a position computed at call time (the mechanism behind the wrong deletions and the slice-bounds panic); calls iterate clause copies captured eagerly; the live database is written only from code statically reachable from asserta/assertz/retract/abolish/consult, the loader and the registration API.",
+			NotDecided: "that the final database equals the sequential reference model for every history; front/end insertion order.",
+			Rules: []RuleDef{
+				{"R-SNAPSHOT", 2, ruleSnapshot},
+				{"R-DB-WRITERS", 6, ruleStateWriters("R-DB-WRITERS", [][2]string{{"VM", "procedures"}, {"userDefined", "clauses"}},
+					[]string{"asserta/1", "assertz/1", "retract/1", "abolish/1", "consult/1"}, "the clause database is updated only by the database-updating predicates, the loader and the registration API")},
+			},
+		},
+		{
+			ID: "C10", Title: "A stored clause is the clause that was given, and it executes as that clause",
+			Decides:    "the term kept for clause/2 and retract/1 is a closed copy (bindings applied) on every compile path; the operand types the compiler emits are the types the interpreter asserts; every emitted structure opcode is closed by exactly one pop; head and body argument compilers treat each term representation with opcodes of the same kind; unchecked assertions on struct fields hold for every value stored there; every opcode has a handler; copies keep variable sharing.",
+			NotDecided: "that the bytecode denotes the source term (argument order, variable numbering) for every clause - a translation-validation question.",
+			Rules: []RuleDef{
+				{"R-RAW-CLOSED", 2, ruleRawClosed},
+				{"R-OPERAND-AGREE", 14, ruleOperandAgree},
+				{"R-PUSH-POP", 6, rulePushPop},
+				{"R-HEAD-BODY-SIBLINGS", 5, ruleHeadBodySiblings},
+				{"R-FIELD-ASSERT", 1, ruleFieldAssert},
+				{"R-ENUM-TOTAL", 15, ruleEnumTotal},
+				{"R-PARAM-THREAD", 8, ruleParamThread(threadRowsFor("simplify", "renamedCopy"))},
+			},
+		},
+		{
+			ID: "C18", Title: "The operator table evolves as op/3 defines; failed updates change nothing",
+			Decides:    "op/3 validates everything before it mutates anything (no error exit is reachable after a mutation); the operator table is written only from code reachable from op/3 and the parser/VM initialisers; write_term/3 and every term-reading parser use the VM's one table.",
+			NotDecided: "that current_op/3 enumerates exactly the ISO table after every history (class exclusion, priority-0 removal are value-level).",
+			Rules: []RuleDef{
+				{"R-OP-ATOMIC", 2, ruleOpAtomic},
+				{"R-OPS-WRITERS", 2, ruleOpsWriters},
+				{"R-OPS-SOURCE", 4, ruleOpsSource},
+			},
+		},
+		{
+			ID: "C20", Title: "Loading defines clauses in source order; a failed load defines nothing",
+			Decides:    "every write of the loader to the live database is dominated by the success edges of both staging steps and the commit loop has no early return; nothing statically reachable from the staging steps (short of a nested load) writes the live database.",
+			NotDecided: "source order, multifile/discontiguous semantics, effects of directives executed during a load that later fails (by design they run at once).",
+			Rules: []RuleDef{
+				{"R-COMMIT-AFTER-SUCCESS", 3, ruleCommitAfterSuccess},
+				{"R-STAGING-LOCAL", 1, ruleStagingLocal},
+			},
+		},
+		{
 			ID: "C01", Title: "Answers are those of depth-first, left-to-right SLD resolution, in order",
 			Decides:    "each clause activation runs on a persistent environment (no binding leaks between activations, sibling branches or successive answers: every Env store targets a private node); the interpreter threads its variable frame, continuation and cut barrier unchanged through its own re-entries; every opcode has a handler.",
 			NotDecided: "that the answer sequence equals the reference SLD sequence (clause order, goal order, completeness, termination reporting) - a statement about the dynamic shape of the promise stack for every program.",
